@@ -47,7 +47,8 @@ theorem actRel_all (hb : Bisim A B π) {s t : Nat} (hp : pairOf π s = some t) (
   by_cases hk : a ∈ rowKeys (A.row s) ++ rowKeys (B.row t)
   · exact hok.2.2.1 a hk
   · simp only [List.mem_append, not_or] at hk
-    simp only [Automaton.actionOf, entry_none_of_not_key hk.1, entry_none_of_not_key hk.2, ← hok.2.2.2.1]
+    simp only [Automaton.actionOf, Automaton.defaultAction, entry_none_of_not_key hk.1,
+      entry_none_of_not_key hk.2, ← hok.2.2.2.1]
     cases A.defaultErrors.lookup s <;> simp [ActRel]
 
 theorem gotoRel_all (hb : Bisim A B π) {s t : Nat} (hp : pairOf π s = some t) (x : Nat) :
@@ -172,13 +173,23 @@ theorem step_bisim (hb : Bisim A B π) (w : List Token) {c₁ c₂ : Config} (hc
   have htop := hst.top hb
   have hla : lookahead A w c₁.cursor = lookahead B w c₂.cursor := by
     simp only [lookahead, hcur, hb.1]
-  have hrel := actRel_all hb htop (lookahead A w c₁.cursor)
   have hok := hb.2.2 _ (pairOf_lt htop) _ htop
+  have hrel : ActRel A B π (nextAction A w (topState c₁.stack) c₁.cursor)
+      (nextAction B w (topState c₂.stack) c₁.cursor) := by
+    have hce : clientEoi B w c₁.cursor = clientEoi A w c₁.cursor := by simp only [clientEoi, hb.1]
+    have hla' : lookahead B w c₁.cursor = lookahead A w c₁.cursor := by simp only [lookahead, hb.1]
+    unfold nextAction
+    rw [hce, hla']
+    by_cases hc : clientEoi A w c₁.cursor = true
+    · simp only [hc, if_true, Automaton.defaultAction, ← hok.2.2.2.1]
+      cases A.defaultErrors.lookup (topState c₁.stack) <;> simp [ActRel]
+    · simp only [hc, Bool.false_eq_true, if_false]
+      exact actRel_all hb htop _
   unfold step
   simp only []
   rw [← hla, ← hcur]
-  cases ha : A.actionOf (topState c₁.stack) (lookahead A w c₁.cursor) <;>
-    cases hbb : B.actionOf (topState c₂.stack) (lookahead A w c₁.cursor) <;>
+  cases ha : nextAction A w (topState c₁.stack) c₁.cursor <;>
+    cases hbb : nextAction B w (topState c₂.stack) c₁.cursor <;>
     rw [ha, hbb] at hrel <;> simp only [ActRel] at hrel
   · -- shift / shift
     cases w[c₁.cursor]? with
